@@ -58,7 +58,7 @@ def opTmleMc (a : Args) : Except String String := do
   let q1 : Array Float ← vals a "q1"
   let q0 : Array Float ← vals a "q0"
   let eps ← fl a "eps"
-  let masks ← need a "masks" (parseLists parseBool)
+  let masks ← need a "masks" (parseLists_C05 parseBool)
   let draws ← need a "draws" (parse3 parseBool)
   let Q := fun (r : Row Float) (arm : Bool) => if arm then look q1 r else look q0 r
   let mA := masks.map List.toArray
